@@ -251,7 +251,7 @@ package cdcn
 
 //@ assume func strings.Count
 //@   nopanic
-//@   ensures result >= 0 && result <= MAXLEN
+//@   ensures result >= 0 && result <= runes($1)
 
 // assumption about regexp: every (sub)match returned for a text is a substring of that text
 //@ iface ScannerClassLike.MatchToken
@@ -260,7 +260,7 @@ package cdcn
 //@   ensures forall i :: 0 <= i && i < len(view(result)) ==> runes(unboxStr(view(result)[i])) <= runes(text)
 
 //@ type *scanner_
-//@   invariant[C12] 0 <= this.first_ && this.first_ <= this.next_ && this.next_ <= len(this.runes_) && this.line_ >= 1 && this.line_ <= MAXLEN && this.tokens_ != nil
+//@   invariant[C12] 0 <= this.first_ && this.first_ <= this.next_ && this.next_ <= len(this.runes_) && this.line_ >= 1 && this.line_ <= 1 + this.next_ && this.tokens_ != nil
 //@   hypothesis nonnilq(this.tokens_)
 
 //@ func (*scanner_).indexOfLastEOL
@@ -269,8 +269,11 @@ package cdcn
 //@   nopanic
 //@   noinv
 //@   ensures[C12] 0 <= result && result <= len(runes)
+//@   ensures[C12] (forall j :: 0 <= j && j < len(runes) ==> runes[j] != 10) ==> result == 0
+//@   ensures[C12] forall k :: 0 <= k && k < len(runes) && runes[k] == 10 && (forall j :: k < j && j < len(runes) ==> runes[j] != 10) ==> result == len(runes) - k
 //@   loop 1:
 //@     invariant 0 <= index && index <= length && length == len(runes)
+//@     invariant forall j :: index <= j && j < length ==> runes[j] != 10
 //@     decreases index
 //@ func (*scanner_).emitToken
 //@   props C12
